@@ -2448,6 +2448,18 @@ def push_down_new_base_methods(trees, stats):
       classes[:] = [(r_, c_) for r_, c_ in classes if c_ is not B]
       continue
     subs = [(r2, d) for r2, d in classes if d is not B and any(ast.unparse(x).split('.')[-1] == B.name for x in d.bases)]
+    # ... and the classes derived from those (a helper pulled up two levels): by class name, as long as names are unique in the package
+    names_ = [d.name for _, d in classes]
+    uniq_ = set(nm for nm in names_ if names_.count(nm) == 1)
+    if B.name in uniq_:
+      grew = True
+      while grew:
+        grew = False
+        have_ = (set(d.name for _, d in subs) | {B.name}) & uniq_
+        for r2, d in classes:
+          if d is not B and not any(d is d2 for _, d2 in subs) and any(ast.unparse(x).split('.')[-1] in have_ for x in d.bases):
+            subs.append((r2, d))
+            grew = True
     if not subs:
       continue
     for m in list(B.body):
@@ -2472,6 +2484,8 @@ def push_down_new_base_methods(trees, stats):
                    for f in c.body if f is not skip for x in ast.walk(f))
       if not any(_had(r2, d) or _uses(d) for r2, d in subs):
         continue
+      if any(isinstance(f, ast.FunctionDef) and f.name == m.name for _, d in classes if d is not B for f in d.body):
+        continue       # (defined elsewhere too: which one a subclass sees depends on the chain in between)
       for r2, d in subs:
         if any(isinstance(f, ast.FunctionDef) and f.name == m.name for f in d.body):
           continue
